@@ -1,4 +1,4 @@
-// C11 — event dispatch reaches exactly the registered handler            vp-link: core
+// C11 — event dispatch reaches exactly the registered handler            vp-link: core cxx
 //
 // G: history over two command tables — the table of a struct dispatch (D) and a stand-alone
 //    "waiting replies" array (W, used like connection::_wait) — of
@@ -7,6 +7,8 @@
 //      mpt_dispatch_emit by id | by (fragmented) message | default (ev==NULL) /
 //      mpt_dispatch_hash with a command text, directly or registered as handler of id 4
 //      (MessageCommand) in the same dispatcher / mpt_dispatch_fini (+ re-init).
+//    One case in four drives the same model through the C++ wrapper of mpt++/event.cpp instead:
+//    mpt::dispatch constructor/destructor, set_handler, handler, reserve, set_error, set_default.
 //    ids: 0..7, 0x100000003 (low byte and low 32 bits collide with 3), mpt_hash() of a small
 //    vocabulary of command words, ids handed out by reserve, arbitrary first bytes.
 //    Every registration is a fresh harness object (the arg pointer), the fallback (_err) too.
@@ -101,6 +103,7 @@ struct World {
   CObj<cmd_array> w;
   Table T[2];
   bool d_init = false;
+  bool cxx = false;          // drive D through the C++ wrapper (mpt++/event.cpp)
   int fb_kind = 0;           // 0 none, 1 harness object, 2 library default (unknownEvent)
   Reg *fb = 0;
   uintptr_t mdef = 0;        // model of dispatch._def
@@ -123,7 +126,7 @@ struct World {
     add_word(std::string(128, 'x'));
   }
   ~World() {                 // release everything also when a check has thrown
-    if (d_init) mpt_dispatch_fini(d);
+    if (d_init) { if (cxx) d->~dispatch(); else mpt_dispatch_fini(d); }
     mpt_command_clear(T[1].arr);
     mpt_array_clone(reinterpret_cast<array *>(T[1].arr), 0);
     g_w = 0;
@@ -242,6 +245,24 @@ struct World {
 
   // ---- operations -----------------------------------------------------------------------------
   void op_init() {
+    if (cxx) {
+      new (d.get()) dispatch;  // mpt_dispatch_init: library default fallback
+      fb = 0;
+      fb_kind = 2;
+      if (c.chance(200)) {
+        log.clear();
+        fb = newreg('F', 0);
+        fb->registered = true;
+        d->set_error(h_event, fb);
+        expect("set_error", {});
+        fb_kind = 1;
+      }
+      d_init = true;
+      mdef = 0;
+      T[0].by_set = false;
+      c.logf("mpt::dispatch constructed, fallback %s", fb_kind == 1 ? "harness object (set_error)" : "library default");
+      return;
+    }
     int style = (int)c.weighted({1, 5, 1, 2});
     if (style < 2) memset(d.get(), 0, sizeof(dispatch));  // MPT_DISPATCH_INIT
     else mpt_dispatch_init(d);
@@ -285,7 +306,9 @@ struct World {
     bool hole = has_hole(t), was = t.live.count(id);
     note_create(t, true);
     log.clear();
-    int ret = fwd ? mpt_dispatch_set(d, id, (event_handler_t)mpt_dispatch_hash, d.get()) : mpt_dispatch_set(d, id, h_event, r);
+    int ret;
+    if (cxx) ret = (fwd ? d->set_handler(id, (event_handler_t)mpt_dispatch_hash, d.get()) : d->set_handler(id, h_event, r)) ? 0 : -1;
+    else ret = fwd ? mpt_dispatch_set(d, id, (event_handler_t)mpt_dispatch_hash, d.get()) : mpt_dispatch_set(d, id, h_event, r);
     c.logf("mpt_dispatch_set(D, %#zx, %s) = %d  (%s)", (size_t)id, fwd ? "mpt_dispatch_hash" : "handler", ret, was ? "id is registered" : "id is free");
     if (r) c.logf("  new object #%u", r->serial);
     if (ret >= 0) registered(t, id, Entry{fwd ? KHashFwd : KHarness, r}, hole, "dispatch_set");
@@ -310,7 +333,7 @@ struct World {
     uintptr_t id = draw_id(t);
     bool was = t.live.count(id);
     log.clear();
-    int ret = mpt_dispatch_set(d, id, 0, 0);
+    int ret = cxx ? (d->set_handler(id, 0, 0) ? 0 : -1) : mpt_dispatch_set(d, id, 0, 0);
     c.logf("mpt_dispatch_set(D, %#zx, NULL) = %d  (%s)", (size_t)id, ret, was ? "id is registered" : "id is free");
     if (was && ret >= 0) { removed(t, id, "dispatch_set(NULL)"); c.label("dispatch_clear:ok"); }
     else {
@@ -360,7 +383,7 @@ struct World {
   void op_get(Table &t) {
     uintptr_t id = draw_id(t);
     log.clear();
-    command *cmd = mpt_command_get(t.arr, id);
+    command *cmd = (cxx && &t == &T[0]) ? d->handler(id) : mpt_command_get(t.arr, id);
     auto it = t.live.find(id);
     c.logf("mpt_command_get(%s, %#zx) = %s  (%s)", t.name, (size_t)id, cmd ? "entry" : "NULL", it != t.live.end() ? "id is registered" : "id is free");
     expect("command_get", {});
@@ -378,7 +401,7 @@ struct World {
     for (auto &e : t.live) top = std::max(top, e.first);
     note_create(t, false);
     log.clear();
-    command *cmd = mpt_command_reserve(t.arr, width);
+    command *cmd = (cxx && &t == &T[0]) ? d->reserve(width) : mpt_command_reserve(t.arr, width);
     expect("command_reserve", {});
     if (!cmd) {
       c.logf("mpt_command_reserve(%s, %zu) = NULL  (%zu live)", t.name, width, t.live.size());
@@ -799,7 +822,8 @@ struct World {
     size_t nlive = exp.size();
     if (fb_kind == 1) exp.push_back({fb, true});
     log.clear();
-    mpt_dispatch_fini(d);
+    if (cxx) d->~dispatch();
+    else mpt_dispatch_fini(d);
     d_init = false;
     c.logf("mpt_dispatch_fini: %zu harness registrations were live, fallback %s", nlive, fb_kind == 1 ? "harness object" : "other");
     T[0].live.clear();
@@ -811,6 +835,38 @@ struct World {
     fb_kind = 0;
     c.label("fini");
     if (nlive >= 2) { c.label("fini:live>=2"); c.nontrivial(); }
+  }
+  // ---- C++ wrapper only ------------------------------------------------------------------------------
+  void op_set_error() {
+    Reg *old = fb_kind == 1 ? fb : 0;
+    Reg *r = newreg('F', 0);
+    r->registered = true;
+    log.clear();
+    d->set_error(h_event, r);
+    c.logf("dispatch::set_error(handler): new fallback object #%u", r->serial);
+    std::vector<Exp> exp;
+    if (old) exp.push_back({old, true});
+    expect("set_error", exp);
+    fb = r;
+    fb_kind = 1;
+    c.label("cxx:set_error");
+    after("set_error");
+  }
+  void op_set_default() {
+    uintptr_t id = draw_id(T[0]);
+    if (!id) id = 1;
+    bool was = T[0].live.count(id);
+    log.clear();
+    bool ok = d->set_default(id);
+    c.logf("dispatch::set_default(%#zx) = %s  (%s), _def %#zx", (size_t)id, ok ? "true" : "false", was ? "id is registered" : "id is free", (size_t)d->_def);
+    expect("set_default", {});
+    // the wrapper guards the assignment with a look-up of the handler: success is reported only for an id that has one
+    // (a refusal of a registered id leaves everything unchanged and is only counted, DESIGN sect. 4)
+    VP_CHECK(c, !ok || was, "set-default", "dispatch::set_default(%#zx) returns true and makes it the default although no handler is registered for that id (%zu registrations)", (size_t)id,
+             T[0].live.size());
+    if (ok) mdef = id;
+    c.label(ok ? "cxx:set_default-ok" : was ? "cxx:set_default-refused-registered-id" : "cxx:set_default-refused");
+    after("set_default");
   }
   void teardown_w() {
     Table &t = T[1];
@@ -864,13 +920,15 @@ static int h_event(void *arg, event *ev) {
 static void run(Ctx &c) {
   static bool quiet = (mpt_log_default_skip(1), true);  // keep the worker's stderr small; the log level is no part of the property
   (void)quiet;
-  c.u8();  // scenario selector (reserved)
+  uint8_t sel = c.u8();  // scenario selector
   World w(c);
+  w.cxx = (sel & 3) == 3;
+  c.label(w.cxx ? "scenario:c++-wrapper" : "scenario:c-api");
   w.op_init();
   while (c.more()) {
     ++w.nops;
     if (!w.d_init) { w.op_init(); continue; }
-    switch (c.weighted({10, 4, 8, 2, 1, 1, 2, 12, 8, 5, 6, 3, 2, 4, 2, 1, 1})) {
+    switch (c.weighted({10, 4, 8, 2, 1, 1, 2, 12, 8, 5, 6, 3, 2, 4, 2, 1, 3})) {
       case 0: w.op_dispatch_set(); break;
       case 1: w.op_dispatch_clear(); break;
       case 2: w.op_command_set(w.T[0]); break;
@@ -887,7 +945,11 @@ static void run(Ctx &c) {
       case 13: w.op_release(w.T[c.weighted({1, 3})]); break;
       case 14: w.op_burst(); break;
       case 15: w.op_fini(); break;
-      default: w.op_get(w.T[0]); break;
+      default:
+        if (!w.cxx) w.op_get(w.T[0]);
+        else if (c.flip()) w.op_set_default();
+        else w.op_set_error();
+        break;
     }
   }
   w.finish();
